@@ -448,3 +448,71 @@ V("C05-sugar-wrong-data", "C05", ["C05.R3"], [(SUGAR, "        .get_materializer
 V("C05-materializer-overrides-ignored", "C05", ["C05.R3"], [(BASE, "            spec, context=self.layered_context, **spec_overrides\n", "            spec, context=self.layered_context\n")])
 V("C05-abstract-not-overridden", "C05", ["C05.R4"], [(NARWHALS, "    def _combine_columns(\n", "    def _combine_cols(\n")])
 V("C05-positional-equiv", "C05", [], [(SPEC, "            self.get_materializer(data, context=context).get_model_matrix(", "            self.get_materializer(data, context).get_model_matrix(")])
+
+# ----------------------------------------------------------------------------------------- C07
+STRUCT = "formulaic/utils/structured.py"
+LMAP = "formulaic/utils/layered_mapping.py"
+V("C07-freeze-before-eval", "C07", ["C07.R1"], [(BASE, """        for factor in factors:
+            self._evaluate_factor(factor, factor_evaluation_model_spec, drop_rows)
+        drop_rows: Sequence[int] = sorted(drop_rows)
+""", """        frozen: Sequence[int] = sorted(drop_rows)
+        for factor in factors:
+            self._evaluate_factor(factor, factor_evaluation_model_spec, drop_rows)
+        drop_rows = frozen
+""")])
+V("C07-structured-formula-per-part", "C07", ["C07.R1"], [(FORMULA, """        return ModelSpec.from_spec(self, **spec_overrides).get_model_matrix(
+            data, context=context, drop_rows=drop_rows
+        )
+""", """        return self._map(
+            lambda formula: formula.get_model_matrix(
+                data, context=context, drop_rows=drop_rows, **spec_overrides
+            )
+        )
+""", 1)], "each part built by its own materializer pass")
+V("C07-encoder-empty-drop", "C07", ["C07.R2"], [(BASE, "                            drop_rows=drop_rows,\n                            encoder_state=encoder_state,", "                            drop_rows=[],\n                            encoder_state=encoder_state,")])
+V("C07-intercept-no-drop", "C07", ["C07.R2"], [(BASE, "                        * self._encode_constant(1, None, {}, spec, drop_rows)", "                        * self._encode_constant(1, None, {}, spec, [])")])
+V("C07-pool-root-only", "C07", ["C07.R3"], [(BASE, "        model_specs._map(update_pooled_spec)\n", "        model_specs._map(update_pooled_spec, recurse=False)\n")])
+V("C07-pool-skip-state", "C07", ["C07.R3"], [(BASE, "            transform_state.update(\n                model_spec.transform_state\n            )  # TODO: Check for consistency?\n", "")])
+V("C07-no-writeback", "C07", ["C07.R3"], [(BASE, """        model_specs._map(
+            lambda ms: ms.transform_state.update(
+                factor_evaluation_model_spec.transform_state
+            )
+        )
+""", "")])
+V("C07-map-tuple-flat", "C07", ["C07.R4"], [(STRUCT, "                return tuple(apply_func(o, context + (i,)) for i, o in enumerate(obj))", "                return tuple(func(o) for i, o in enumerate(obj))")])
+V("C07-map-drops-astype", "C07", ["C07.R4"], [(STRUCT, "                return obj._map(func, recurse=True, as_type=as_type, _context=context)", "                return obj._map(func, recurse=True, _context=context)")])
+
+# ----------------------------------------------------------------------------------------- C19
+V("C19-revert-flatten", "C19", ["C19.R1"], [(STRUCT, """            elif isinstance(obj, tuple):
+                for o in obj:
+                    yield from flatten_obj(o)
+            else:
+                yield obj""", """            elif isinstance(obj, tuple):
+                for o in obj:
+                    if isinstance(o, Structured):
+                        yield from o._flatten()
+                    else:
+                        yield o
+            else:
+                yield obj""")], "origin: revert 380d33a (one-level tuple flatten)")
+V("C19-todict-flat-tuple", "C19", ["C19.R1"], [(STRUCT, "                return tuple(do_recursion(o) for o in obj)", "                return tuple(o for o in obj)")])
+V("C19-update-old-wins", "C19", ["C19.R1"], [(STRUCT, """                "_metadata": self._metadata,
+                **self._structure,
+                **{
+                    key: self.__prepare_item(key, item)
+                    for key, item in structure.items()
+                },""", """                "_metadata": self._metadata,
+                **{
+                    key: self.__prepare_item(key, item)
+                    for key, item in structure.items()
+                },
+                **self._structure,""")])
+V("C19-setitem-writes-layer", "C19", ["C19.R2"], [(LMAP, "        self._mutations[key] = value", "        (self._layers[0] if self._layers else self._mutations)[key] = value")])
+V("C19-delitem-layer", "C19", ["C19.R2"], [(LMAP, "        else:\n            raise KeyError(f\"Key '{key}' not found in mutable layer.\")", "        else:\n            for layer in self._layers:\n                layer.pop(key, None)")])
+V("C19-inplace-cache-stale", "C19", ["C19.R2"], [(LMAP, "            if \"named_layers\" in self.__dict__:\n                del self.named_layers\n", "")])
+V("C19-getitem-layers-first", "C19", ["C19.R3"], [(LMAP, "        for layer in [self._mutations, *self._layers]:\n            if key in layer:\n                return layer[key]", "        for layer in [*self._layers, self._mutations]:\n            if key in layer:\n                return layer[key]")])
+V("C19-with-layer-name-reversed", "C19", ["C19.R3"], [(LMAP, "        for layer in self._layers:\n            if key in layer:\n                if isinstance(layer, LayeredMapping):", "        for layer in reversed(self._layers):\n            if key in layer:\n                if isinstance(layer, LayeredMapping):")])
+V("C19-len-ignores-mutations", "C19", ["C19.R3"], [(LMAP, "        return len(set(itertools.chain(self._mutations, *self._layers)))", "        return len(set(itertools.chain(*self._layers)))")])
+V("C19-setitem-no-reorder", "C19", ["C19.R4"], [(FORMULA, "        self.__terms[key] = value\n        self._reorder()", "        self.__terms[key] = value")])
+V("C19-init-no-reorder", "C19", ["C19.R4"], [(FORMULA, "        self.__validate_terms(self.__terms)\n\n        self._reorder()", "        self.__validate_terms(self.__terms)")])
+V("C19-insert-no-validate", "C19", ["C19.R4"], [(FORMULA, "        self.__validate_terms([value])\n        self.__terms.insert(index, value)", "        self.__terms.insert(index, value)")])
